@@ -12,7 +12,14 @@ blocks - with one call per program on fresh objects.  This stream states C12 on
  (b) HISTORIES: several runs in a row that share one backend / emulator object, jobs made by calling the backend
      directly (executed at once or later, interleaved with other jobs), and circuit objects - where the earlier
      programs end with an unmatched prepare_all, are rejected under each rule (the walk is abandoned half way),
-     or are accepted.
+     or are accepted.  Kinds: `corner_history` (every TAILS x HEADS pair x 4 call patterns, always run),
+     `history` (2-7 observed calls, 1-2 backend objects, 2-3 programs), `burst` (8-14 short-lived circuits in a row
+     on one backend, nothing else kept alive: object identities get reused).  Each call is judged on ITS program
+     alone.  A failure that needs what ran earlier in the process (state kept in the library's classes / modules)
+     is stored with the preceding case under "before", which replay() runs first.
+
+Recommended n: quick 2500 (~8-10 s), thorough 25000 (~80-100 s; thorough only deepens the nesting and lengthens
+the histories, n is not multiplied).
 
 Entry points: run_jaqal_circuit(c) (default backend), run_jaqal_circuit(c, backend=B / emulator_backend=B) with B
 reused, B(expanded) -> job -> job.execute(), parse_jaqal_output_list(c, outputs), DiscoverSubcircuits().visit(expanded).
@@ -725,7 +732,7 @@ def do_step(R, H, step, nout):
         signal.signal(signal.SIGALRM, old)
 
 
-def judge(o, ref, emu):
+def judge(o, ref):
     """-> [(oracle, counted, failure detail|None)]"""
     if o.get("skip"): return []
     if o.get("hang"): return [("C12_terminates", True, "library call still running at the alarm")]
@@ -769,7 +776,7 @@ def run_case(case):
         if key not in refs: refs[key] = reference(case["programs"][src["prog"]]["ast"], src.get("ov"))
         ref = refs[key]
         o = do_step(R, H, step, ref["visits"] * 2 + 8)
-        for name, counted, detail in judge(o, ref, step["op"] in ("run", "job", "exec")):
+        for name, counted, detail in judge(o, ref):
             counts[name] = counts.get(name, 0) + 1
             if detail is not None:
                 fails.append((name, f"step {i} {json.dumps({k: v for k, v in step.items()})}: {detail}"))
